@@ -10,4 +10,5 @@ INVARIANT ImplIsAdmissible
 INVARIANT PrefixClosed
 INVARIANT LinearFormsAgree
 INVARIANT RankFormAgrees
+INVARIANT AffineInvariant
 CHECK_DEADLOCK FALSE
